@@ -357,7 +357,8 @@ def run_history(ctx, init, ops):
 # --------------------------------------------------------------------------
 # segment-level histories
 
-SEG_OPS = ['set_start', 'set_ctrl', 'set_end', 'len', 'len_loose', 'len_depth1', 'len_part', 'point', 'bbox', 'eqhash',
+SEG_OPS = ['set_start', 'set_ctrl', 'set_end', 'len', 'len_loose', 'len_depth1', 'len_part', 'point', 'bbox', 'eqhash', 'poly', 'points',
+           'derivative', 'tangent',
            'reversed_then_mutate_original', 'reversed_then_mutate_copy', 'reversed_query']
 
 
@@ -416,6 +417,15 @@ def run_seg_history(ctx, kind, ops, seed):
             seg_compare(ctx, s, 'point(.3)', lambda x: x.point(0.3), ops)
         elif op == 'bbox':
             seg_compare(ctx, s, 'bbox()', lambda x: x.bbox(), ops)
+        elif op == 'poly':
+            seg_compare(ctx, s, 'poly() coefficients', lambda x: [complex(c) for c in x.poly(return_coeffs=True)], ops)
+            seg_compare(ctx, s, 'poly()(.3)', lambda x: complex(x.poly()(0.3)), ops)
+        elif op == 'points':
+            seg_compare(ctx, s, 'points([.2,.7])', lambda x: [complex(z) for z in x.points([0.2, 0.7])], ops)
+        elif op == 'derivative':
+            seg_compare(ctx, s, 'derivative(.4)', lambda x: complex(x.derivative(0.4)), ops)
+        elif op == 'tangent':
+            seg_compare(ctx, s, 'unit_tangent(.6)', lambda x: complex(x.unit_tangent(0.6)), ops)
         elif op == 'eqhash':
             f = fresh_seg(s)
             ctx.verdict()
